@@ -34,6 +34,9 @@ pub enum SegKind {
     Merged,
     /// the first part of a valid frame cut off by a spurious zero byte
     SplitHead,
+    /// a valid frame whose last COBS code byte was raised so that its block claims to reach
+    /// beyond the sentinel: not a COBS encoding of anything
+    BadCobs,
 }
 
 /// Ground truth known by construction of the workload (not from any decoder).
@@ -369,7 +372,8 @@ mod p8 {
     pub const HUGE_CAPACITY: usize = 16;
     pub const MORE_THAN_65535_RESULTS: usize = 17;
     pub const CANONICAL_FULL_BLOCK: usize = 18;
-    pub const NAMES: [&str; 19] = [
+    pub const BAD_COBS_REJECTED: usize = 19;
+    pub const NAMES: [&str; 20] = [
         "segment_of_exactly_N_bytes",
         "unterminated_tail_of_exactly_N_bytes",
         "chunk_with_3_or_more_sentinels",
@@ -389,6 +393,7 @@ mod p8 {
         "capacity_65535_or_more",
         "more_than_65535_results_from_one_accumulator",
         "frame_in_the_cobs_paper_convention_ending_with_a_full_block_delivered",
+        "segment_that_is_not_cobs_rejected",
     ];
 }
 
@@ -629,12 +634,21 @@ fn c08_history<const N: usize>(
                         if call.kind != Kind::DeserError {
                             fail!(
                                 "malformed-frame-rejected",
-                                "segment {results} is a correctly framed but truncated encoding (a strict prefix of a valid one); the accumulator reported {:?} {:?} instead of a deserialisation error",
+                                "segment {results} is {}; the accumulator reported {:?} {:?} instead of a deserialisation error",
+                                if t.segments[results].kind == SegKind::BadCobs {
+                                    "not a COBS encoding (its last code byte claims a block that reaches beyond the sentinel)"
+                                } else {
+                                    "a correctly framed but truncated encoding (a strict prefix of a valid one)"
+                                },
                                 call.kind,
                                 call.data
                             );
                         }
-                        out.probe(p8::TRUNCATED_REJECTED);
+                        if t.segments[results].kind == SegKind::BadCobs {
+                            out.probe(p8::BAD_COBS_REJECTED);
+                        } else {
+                            out.probe(p8::TRUNCATED_REJECTED);
+                        }
                     }
                     None => {}
                 }
@@ -843,6 +857,29 @@ fn truncated_frame(rng: &mut Rng, cfg: &GenCfg, shape: &Shape, max_frame: usize)
         }
     }
     None
+}
+
+/// a frame that is not valid COBS: the last code byte of a valid frame announces at least two
+/// more bytes than lie before the sentinel (a zero byte inside a block cannot be COBS)
+fn bad_cobs_frame(rng: &mut Rng, cfg: &GenCfg, shape: &Shape, max_frame: usize) -> Option<Vec<u8>> {
+    let (mut f, _) = valid_frame(rng, cfg, shape, max_frame)?;
+    // walk the chain of code bytes up to the sentinel
+    let end = f.len() - 1;
+    let mut pos = 0usize;
+    let mut last = 0usize;
+    while pos < end {
+        last = pos;
+        pos += f[pos] as usize;
+    }
+    if pos != end {
+        return None;
+    }
+    let c = f[last] as usize;
+    if c + 2 > 255 {
+        return None;
+    }
+    f[last] = rng.range(c + 2, 255) as u8;
+    Some(f)
 }
 
 /// a valid frame of exactly `len` bytes for shapes whose length can be tuned
@@ -1121,9 +1158,13 @@ fn gen_acc_trace(rng: &mut Rng, o: &GenOpts, sweep_len: Option<usize>) -> AccTra
                 b.push(0);
                 mk(SegKind::Garbage, b, None)
             }
-            10 => match rng.below(3) {
+            10 => match rng.below(4) {
                 0 => match truncated_frame(rng, &cfg, &shape, fit) {
                     Some(b) => mk(SegKind::Truncated, b, Some(Expect::Error)),
+                    None => empty(),
+                },
+                3 => match bad_cobs_frame(rng, &cfg, &shape, fit) {
+                    Some(b) => mk(SegKind::BadCobs, b, Some(Expect::Error)),
                     None => empty(),
                 },
                 1 => {
